@@ -60,6 +60,25 @@ type EmbPtr struct {
 	MI   map[string]Inner `clover:"mi,omitempty"`
 }
 
+// Tagged mixes json and clover tags on nested, pointed and collected structs.
+type Tagged struct {
+	In  Inner             `json:"in2" clover:"inner"`
+	PL  []*Inner          `json:"plist" clover:"pl"`
+	PM  map[string]*Inner `clover:"pm"`
+	Arr [2]Inner          `clover:"arr"`
+	N   NamedInt          `json:"n" clover:"num,omitempty"`
+}
+
+// Cross has clover names that cross the Go / json names of other fields.
+type Cross struct {
+	A     string `clover:"B"`
+	B     string `clover:"A"`
+	Name  string `clover:"title"`
+	Alias string `clover:"Name"`
+	Old   int    `clover:"v1" json:"v2"`
+	New   int    `clover:"v2" json:"v3"`
+}
+
 // Family holds the parameters from which the struct values are populated.
 type Family struct {
 	Name    string   `json:"name"`
@@ -153,6 +172,22 @@ func (f *Family) Build(name string) interface{} {
 			o.When = &w
 		}
 		return o
+	case "Cross":
+		return Cross{A: "a" + f.Name, B: "b" + f.BVal, Name: "n" + f.E2, Alias: "al" + f.Name, Old: f.JS, New: f.MVal + 10}
+	case "Tagged":
+		t := Tagged{In: f.inner(0), Arr: [2]Inner{f.inner(3), f.inner(4)}, N: NamedInt(f.JS)}
+		for i := 0; i < f.NList; i++ {
+			in := f.inner(i)
+			t.PL = append(t.PL, &in)
+		}
+		if !f.MNil {
+			t.PM = map[string]*Inner{}
+			for i, k := range f.MKeys {
+				in := f.inner(i)
+				t.PM[k] = &in
+			}
+		}
+		return t
 	case "EmbPtr":
 		e := EmbPtr{Z: f.I64}
 		if f.EmbSet {
@@ -229,6 +264,24 @@ func (f *Family) Expect(name string) map[string]interface{} {
 		} else {
 			m["when"] = nil
 		}
+		return m
+	case "Cross":
+		return map[string]interface{}{"B": "a" + f.Name, "A": "b" + f.BVal, "title": "n" + f.E2, "Name": "al" + f.Name, "v1": int64(f.JS), "v2": int64(f.MVal + 10)}
+	case "Tagged":
+		m := map[string]interface{}{"inner": f.innerExp(0), "arr": []interface{}{f.innerExp(3), f.innerExp(4)}}
+		pl := make([]interface{}, f.NList)
+		for i := range pl {
+			pl[i] = f.innerExp(i)
+		}
+		m["pl"] = pl
+		pm := map[string]interface{}{}
+		if !f.MNil {
+			for i, k := range f.MKeys {
+				pm[k] = f.innerExp(i)
+			}
+		}
+		m["pm"] = pm
+		omit(m, "num", f.JS == 0, int64(f.JS))
 		return m
 	case "EmbPtr":
 		m := map[string]interface{}{"z": f.I64}
@@ -314,6 +367,26 @@ func StructEqual(a, b interface{}) bool {
 		}
 		if (x.When == nil) != (y.When == nil) || (x.When != nil && !timeEq(*x.When, *y.When)) {
 			return false
+		}
+		return true
+	case Cross:
+		y, ok := b.(Cross)
+		return ok && x == y
+	case Tagged:
+		y, ok := b.(Tagged)
+		if !ok || !innerEq(x.In, y.In) || !innerEq(x.Arr[0], y.Arr[0]) || !innerEq(x.Arr[1], y.Arr[1]) || x.N != y.N || len(x.PL) != len(y.PL) || len(x.PM) != len(y.PM) {
+			return false
+		}
+		for i := range x.PL {
+			if (x.PL[i] == nil) != (y.PL[i] == nil) || (x.PL[i] != nil && !innerEq(*x.PL[i], *y.PL[i])) {
+				return false
+			}
+		}
+		for k, v := range x.PM {
+			w, ok := y.PM[k]
+			if !ok || (v == nil) != (w == nil) || (v != nil && !innerEq(*v, *w)) {
+				return false
+			}
 		}
 		return true
 	case EmbPtr:
